@@ -194,6 +194,12 @@ def concretize(v, model):
         return ev(v.term).as_long()
     if isinstance(v, VBool):
         return z3.is_true(ev(v.term))
+    if isinstance(v, VReal):
+        r = ev(v.term)
+        try:
+            return float(r.numerator_as_long()) / float(r.denominator_as_long())
+        except Exception:
+            return str(r)
     if isinstance(v, VStr):
         return ev(v.term).as_string()
     if isinstance(v, VNone):
